@@ -46,4 +46,17 @@ theorem decode_window (len : Nat) (hl : 1 ≤ len ∧ len ≤ 4) (pn largest : I
   rcases this with rfl | rfl | rfl | rfl <;> simp only [Nat.reduceMul, Int.reducePow] at * <;>
     (split <;> (try split) <;> omega)
 
+/-- whatever the receiver state, a well-formed truncated number decodes to a packet number in range that is
+    congruent to it -/
+theorem decode_range (len : Nat) (hl : 1 ≤ len ∧ len ≤ 4) (largest t : Int)
+    (hL : -1 ≤ largest) (hL2 : largest + 1 < 2 ^ 62) (ht0 : 0 ≤ t) (ht : t < 2 ^ (8 * len)) :
+    0 ≤ decodePN len largest t ∧ decodePN len largest t < 2 ^ 62 ∧ decodePN len largest t % 2 ^ (8 * len) = t := by
+  unfold decodePN
+  simp only
+  rw [candidate_eq (8 * len) (largest + 1) _ (by omega) ht0 ht]
+  obtain ⟨h1, h4⟩ := hl
+  have : len = 1 ∨ len = 2 ∨ len = 3 ∨ len = 4 := by omega
+  rcases this with rfl | rfl | rfl | rfl <;> simp only [Nat.reduceMul, Int.reducePow] at * <;>
+    (split <;> (try split) <;> omega)
+
 end Uquic.Proofs.PN
